@@ -54,6 +54,11 @@ class D(Driver):
             cs.append(("random", seed, k, 400))
         for k in range(8 if tier == "quick" else 64):
             cs.append(("print", seed, k, 300))
+        from picomon.gen import corpus as _corpus
+
+        _nf = len(_corpus.files())
+        for _i in range(0, _nf, 12 if tier == "thorough" else 60):
+            cs.append(("pipeline", _i, min(_nf, _i + 12)))
         return cs
 
     def setup_worker(self, tier, seed):
@@ -103,6 +108,22 @@ class D(Driver):
 
     def run_case(self, case):
         kind = case[0]
+        if case[0] == "pipeline":
+            # every call of the monitored functions made while converting real documents
+            from picomon import conv as _conv
+            from picomon.gen import corpus as _corpus
+
+            res = new_result()
+            res["_ntc"] = 0
+            parsemon.SEEN = set()
+            for _f in _corpus.files()[case[1]:case[2]]:
+                _st, _ = _conv.convert(open(_f).read())
+                res["evals"] += 1
+                bump(res["features"], "pipeline_documents")
+            parsemon.SEEN = None
+            for k_, v_ in events.take_counts().items():
+                bump(res["counters"], "pipeline." + k_, v_)
+            return self._finish(res, True)
         res = new_result()
         res["_ntc"] = 0
         if kind == "enum_short":
